@@ -135,6 +135,17 @@ def cases(tier, rng):
             {"dom": "expr", "expr": "x > cl + 100", "env": {"x": 1, "y": 2}, "params": ["x"], "fparams": ["x", "y"], "layout": "oneline", "kind": "ensure"}]
     yield "sibling-contracts-any-order", {"dom": "batchorder", "cases": sibs,
                                           "orders": [[0, 1, 2, 3, 4], [4, 3, 2, 1, 0], [1, 0, 3, 2, 4], [2, 4, 0, 1, 3]]}
+    # textually identical comprehensions / generator expressions in conditions that see DIFFERENT sets of names (other
+    # parameters, other keyword arguments swallowed by **kw), violated one after the other in several orders
+    same = [{"dom": "expr", "expr": "all(e > 100 for e in xs)", "env": {"xs": [1, 2]}, "params": ["xs"], "layout": "oneline"},
+            {"dom": "expr", "expr": "all(e > 100 for e in xs) or y > 100", "env": {"xs": [1, 2], "y": 3}, "params": ["xs", "y"], "layout": "oneline"},
+            {"dom": "expr", "expr": "[e for e in xs if e > 100] == xs", "env": {"xs": [1, 2]}, "params": ["xs"], "layout": "multiline"},
+            {"dom": "expr", "expr": "[e for e in xs if e > 100] == xs", "env": {"xs": [1, 2], "n": 4}, "params": ["xs"], "fparams": ["xs", "n"], "layout": "oneline"},
+            {"dom": "expr", "expr": "[e for e in xs if e > 100] == xs", "env": {"xs": [1, 2]}, "params": ["xs"], "fparams": ["xs", "**kw"],
+             "extra_kwargs": {"k1": 1, "k2": 2}, "layout": "oneline"},
+            {"dom": "expr", "expr": "all(e > 100 for e in xs)", "env": {"xs": [1, 2], "s": "a"}, "params": ["xs", "s"], "layout": "oneline", "kind": "ensure"}]
+    yield "same-comprehension-different-names", {"dom": "batchorder", "cases": same,
+                                                 "orders": [[0, 1, 2, 3, 4, 5], [5, 4, 3, 2, 1, 0], [3, 2, 4, 0, 5, 1], [1, 5, 0, 4, 2, 3]]}
     for params, expr, env in HIDDEN:
         for kind in ("require", "ensure"):
             for named in (False, True):
